@@ -279,7 +279,9 @@ P = sym.Poly
 def _len_atom(e):
     """canonical polynomial of len(e)"""
     while True:
-        if isinstance(e, ast.Call) and au.call_tail(e) in ("list", "tuple") and isinstance(e.func, ast.Name) and len(e.args) == 1 and not e.keywords:
+        if isinstance(e, ast.Call) and au.call_tail(e) in ("list", "tuple", "reversed", "sorted", "iter") and isinstance(e.func, ast.Name) and len(e.args) == 1 and not e.keywords:
+            e = e.args[0]
+        elif isinstance(e, ast.Call) and isinstance(e.func, ast.Name) and e.func.id == "enumerate" and e.args:
             e = e.args[0]
         elif isinstance(e, ast.Attribute) and e.attr in ("_data", "_elem", "_adj") and not au.is_self_attr(e):
             e = e.value
@@ -291,6 +293,9 @@ def _len_atom(e):
         return _len_atom(e.generators[0].iter)
     if isinstance(e, ast.BinOp) and isinstance(e.op, ast.Add):
         return _len_atom(e.left) + _len_atom(e.right)
+    if isinstance(e, ast.Call) and isinstance(e.func, ast.Name) and e.func.id == "__repeat__" and len(e.args) == 2 and isinstance(e.args[0], ast.List) \
+            and isinstance(e.args[1], ast.Call) and au.call_tail(e.args[1]) == "len" and e.args[1].args:
+        return _len_atom(e.args[1].args[0]) * len(e.args[0].elts)     # items appended by a loop: k per element of the iterable
     if isinstance(e, ast.Subscript) and isinstance(e.value, ast.Call) and au.call_tail(e.value) == "zip" and len(e.value.args) == 1 \
             and isinstance(e.value.args[0], ast.Starred) and isinstance(au.const(e.slice), int):
         return _len_atom(e.value.args[0].value)          # one column of zip(*pairs) has one item per pair
@@ -870,10 +875,10 @@ def s1_siblings(ctx):
             rd = [o for c, o, _ in sd if tab.consistent(c, asg)]
             if len(ra) != 1 or len(rd) != 1:
                 raise hd_tt.TooBig(f"{len(ra)} sparse / {len(rd)} dense paths for one assignment")
-            if (ra[0][0] == "reject") != (rd[0][0] == "reject") or ra[0][0] == "nothing" or rd[0][0] == "nothing":
+            if (ra[0][0] == "reject") != (rd[0][0] == "reject"):
                 diff = ("accept", asg, ra[0], rd[0])
                 break
-            if ra[0][0] == "store" and ra[0] != rd[0] and diff is None:
+            if ra[0][0] == "store" and rd[0][0] == "store" and ra[0] != rd[0] and diff is None:
                 diff = ("value", asg, ra[0], rd[0])
     except (hd_tt.TooBig, order.Unsupported) as e:
         ctx.undecided("C05-S1", site_d, "sparse and dense __setitem__: their decisions cannot be tabulated", str(e))
@@ -900,8 +905,11 @@ def s1_siblings(ctx):
     for fn, site, summ in ((fa, site_a, sa), (fd, site_d, sd)):
         verdict = {}
         for conds, outcome, p in summ:
-            if outcome[0] != "store":
+            if outcome[0] == "reject":
                 continue
+            # every path on which the write is accepted - the value is stored, or the method returns normally some other way (entry
+            # removed because the value equals the default ...) - must have passed the tests
+            how = "stored" if outcome[0] == "store" else "accepted (the method returns without storing it)"
             opaque = any(isinstance(n, ast.Call) and au.call_tail(n) not in ("_can_be_casted", "isinstance", "len", "list", "tuple", "type", "Type", "hasattr")
                          for t, _ in conds for n in ast.walk(t))
             vname = au.params(fn, skip_self=True)[1]
@@ -931,10 +939,13 @@ def s1_siblings(ctx):
                 if casts or same_type or opaque:
                     verdict.setdefault("cast", ("und", f"{fn.name}: a value is stored on a path where the cast test was not recognised", ""))
                 else:
-                    verdict["cast"] = ("fail", f"{fn.name}: a value is stored without any test of its type against the attribute's type",
-                                       "only bool->int->float widening is allowed")
+                    extra = [au.canon_test(t, pol) for t, pol in conds if "elemsize" not in src(t)]
+                    verdict["cast"] = ("fail", f"{fn.name}: a value is {how} without any test of its type against the attribute's type"
+                                       + (f" when {' and '.join(extra)}" if extra and outcome[0] != "store" else ""),
+                                       "only bool->int->float widening is allowed, and sparse and dense storage must reject the same values: a test that "
+                                       "compares values (==) crosses types (0 == False == 0.0 == 0j)")
             # exact arity for vectors
-            vecp = _elemsize_ok(conds, lambda e: e > 1)
+            vecp = _elemsize_ok(conds, lambda e: e > 1) if outcome[0] == "store" else False
             if vecp is None:
                 verdict.setdefault("arity", ("und", f"{fn.name}: a value is stored under a condition on the element size that is not understood", ""))
             if vecp:
